@@ -1163,7 +1163,8 @@ def run_limits(rep, tree, tier, work, optable):
     samples = []
     for want_f in ("depth-src", "depth-hand", "stack", "nest"):
         for c in cases:
-            if c.family.startswith(want_f):
+            # for the depth families show an element that sits exactly one frame over the limit
+            if c.family.startswith(want_f) and (not want_f.startswith("depth") or c.note == "frames needed: limit+1" or (want_f == "depth-hand" and c.alts[0].get("res") == ERR_CALL_DEPTH)):
                 samples.append({"limit_case": c.name, "family": c.family, "model": {k: (v if not isinstance(v, bytes) else v[:40].decode(errors="replace")) for k, v in c.alts[0].items()}})
                 break
     return cov, samples
